@@ -288,13 +288,19 @@ def guard_protects(ctx, rule, instance, body, relpred, sites, what='', need_dom=
 
 
 def store_values(ctx, adt, field, in_fn=None, crate='quinn_proto'):
-    """(Write, value descriptor) for direct stores to S.f"""
+    """(Write, value descriptor) for direct stores to S.f and for stores through a local `&mut` borrow of it"""
     out = []
-    for w in field_writes(ctx.facts, adt, field, crate=crate, include_borrows=False):
+    ws = []
+    for w in field_writes(ctx.facts, adt, field, crate=crate, include_borrows=True):
+        if w.kind == 'mutborrow':
+            ws.extend(borrow_stores(ctx.facts, w))
+        else:
+            ws.append(w)
+    for w in ws:
         if in_fn is not None and ctx.facts.root_of(w.body).id != in_fn.id:
             continue
         d = describer(ctx.facts, w.body)
-        if w.kind == 'assign' and w.rv and w.rv[0] != 'sd':
+        if w.kind in ('assign', 'viaborrow') and w.rv and w.rv[0] != 'sd':
             out.append((w, d.rvalue(w.rv, w.bb, w.idx, 0)))
         elif w.kind == 'callresult':
             out.append((w, d.call_desc(w.call, 0)))
